@@ -24,7 +24,11 @@ type c06Case struct {
 	Params [][]string `json:"params"` // per candidate: parameter declarations ("x int", "xs ...int")
 	TParam []string   `json:"tparam"` // per candidate: type parameter list ("" or "[T any]")
 	Args   []string   `json:"args"`
+	XGo    bool       `json:"xgo,omitempty"` // a candidate takes a big-number parameter: XGo-builtin configuration
 }
+
+// c06Sfx: the index alphabet of overload suffixes (name__0 ... name__9, name__a ... name__z)
+const c06Sfx = "0123456789abcdefghijklmnopqrstuvwxyz"
 
 const c06PkgPath = "example.com/verif/ovl"
 
@@ -44,17 +48,17 @@ func (c *c06Case) names() []string {
 	for k := 0; k < n; k++ {
 		switch c.Kind {
 		case "method":
-			out[k] = fmt.Sprintf("M__%d", k)
+			out[k] = fmt.Sprintf("M__%c", c06Sfx[k])
 		case "ptrmethod":
-			out[k] = fmt.Sprintf("P__%d", k)
+			out[k] = fmt.Sprintf("P__%c", c06Sfx[k])
 		case "table":
 			if k%2 == 0 {
 				out[k] = fmt.Sprintf("Gx%d", k) // explicit name in the XGoo_ table
 			} else {
-				out[k] = fmt.Sprintf("G__%d", k) // empty slot in the table: default name
+				out[k] = fmt.Sprintf("G__%c", c06Sfx[k]) // empty slot in the table: default name
 			}
 		default:
-			out[k] = fmt.Sprintf("F__%d", k)
+			out[k] = fmt.Sprintf("F__%c", c06Sfx[k])
 		}
 	}
 	return out
@@ -62,7 +66,12 @@ func (c *c06Case) names() []string {
 
 func (c *c06Case) pkgSrc() string {
 	var b strings.Builder
-	b.WriteString("package ovl\n\nconst XGoPackage = true\n\ntype N int\n\ntype T struct{ V int }\n\n")
+	b.WriteString("package ovl\n\n")
+	if c.XGo {
+		b.WriteString("import \"github.com/goplus/gogen/internal/builtin\"\n\nvar _ builtin.XGo_bigint\n\n")
+	}
+	// Never has no value in the argument pool: a candidate with a Never parameter is never applicable
+	b.WriteString("const XGoPackage = true\n\ntype N int\n\ntype T struct{ V int }\n\ntype Never struct{ never int }\n\n")
 	names := c.names()
 	for k := range c.Params {
 		fmt.Fprintf(&b, "type R%d struct{ r%d int }\n", k, k)
@@ -167,7 +176,7 @@ func c06Build(c *c06Case, callee string) (res *drive.Result, emittedCallee, emit
 		}
 		return true
 	})
-	res = drive.Build(fset, []*ast.File{f}, map[string][]byte{"c.go": []byte(src)}, drive.Options{Importer: oracle.NewImporter(), PkgPath: "main", Recorder: rec,
+	res = drive.Build(fset, []*ast.File{f}, map[string][]byte{"c.go": []byte(src)}, drive.Options{Importer: oracle.NewImporter(), PkgPath: "main", Recorder: rec, XGo: c.XGo,
 		Setup: func(d *drive.Driver) {
 			d.Trace = func(e ast.Expr, el *gogen.Element, ref bool) {
 				if e == ast.Expr(call) && el.Type != nil {
@@ -252,6 +261,17 @@ func c06Eval(c *c06Case) (sig, msg string, expected int, feats []string) {
 	if expected > 0 {
 		feats = append(feats, "earlier-candidates-rejected")
 	}
+	if expected >= 10 {
+		feats = append(feats, "candidate-index>=10")
+	}
+	if c.XGo {
+		for k := 0; k < expected && k < len(c.Params); k++ {
+			if len(c.Params[k]) > 0 && strings.HasSuffix(c.Params[k][0], "XGo_bigint") {
+				feats = append(feats, "rejected-candidate-with-big-number-param")
+				break
+			}
+		}
+	}
 	if expected < 0 {
 		feats = append(feats, "none-applicable")
 		if res.Accepted() {
@@ -334,10 +354,26 @@ func TestC06(t *testing.T) {
 	r.Check(t, "overloads", r.N(4000, 100000), func(t *rapid.T) {
 		c := &c06Case{Kind: pick(t, "kind", []string{"func", "func", "table", "method", "ptrmethod"})}
 		n := rapid.IntRange(1, 6).Draw(t, "ncand")
+		if rapid.IntRange(0, 7).Draw(t, "bigfamily") == 0 {
+			n = rapid.IntRange(11, 14).Draw(t, "ncandbig") // reaches the letters of the suffix alphabet
+		}
 		for k := 0; k < n; k++ {
 			np := rapid.IntRange(0, 3).Draw(t, "nparams")
 			var ps []string
 			tp := ""
+			if k < n-1 && rapid.IntRange(0, 9).Draw(t, "bigparam") == 0 {
+				// A candidate that is tried, rewrites an untyped constant argument for its big-number
+				// parameter, and then fails on its Never parameter: nothing of it may remain.
+				ps = append(ps, "p0 builtin.XGo_bigint")
+				if rapid.Bool().Draw(t, "bigmid") {
+					ps = append(ps, "p1 "+pick(t, "ptype", c06ParamTypes))
+				}
+				ps = append(ps, fmt.Sprintf("p%d Never", len(ps)))
+				c.Params = append(c.Params, ps)
+				c.TParam = append(c.TParam, "")
+				c.XGo = true
+				continue
+			}
 			g := c.Kind != "method" && c.Kind != "ptrmethod" && rapid.IntRange(0, 5).Draw(t, "generic") == 0
 			for i := 0; i < np; i++ {
 				ty := pick(t, "ptype", c06ParamTypes)
